@@ -297,6 +297,16 @@ pub fn format_cli(ctx: &Ctx, text: &str) -> Result<String, String> {
     let inp = format!("{}/in.blots", dir);
     let outp = format!("{}/out.blots", dir);
     std::fs::write(&inp, text).map_err(|e| e.to_string())?;
+    // a third of the runs write into a file that already holds a longer, earlier program; a third
+    // format the file in place; the rest write to a fresh path
+    let outp = match crate::engine::hash_str(text) % 3 {
+        0 => {
+            std::fs::write(&outp, format!("{}\n// an earlier version of this file\nzz_old_1 = [1, 2, 3]\nzz_old_2 = \"{}\"\n", text, "#".repeat(text.len() + 40))).map_err(|e| e.to_string())?;
+            outp
+        }
+        1 => inp.clone(),
+        _ => outp,
+    };
     let r = run_proc(&ctx.cli_path, &["--format".into(), inp.clone(), outp.clone()], None, None, &Limits::default());
     let res = match r {
         Ok(r) if r.code == Some(0) => std::fs::read_to_string(&outp).map_err(|e| format!("no output file: {}", e)),
